@@ -12,7 +12,7 @@ PRIM_INDEX = {'bool': 0, 'char': 1, 'str': 2, 'u8': 3, 'u16': 4, 'u32': 5, 'u64'
 def args_for(unit, failure, tier='quick'):
     item = ((failure.get('where') or {}).get('origin') or {}).get('item', '')
     if unit == 'U-DERIVES':
-        return [['c08-resolve'], ['c18-upcast']] if item in ('resolve', 'extend_from') else [['c18-upcast'], ['c08-resolve']]
+        return [['c08-resolve'], ['c18-upcast'], ['c16-builders']] if item in ('resolve', 'extend_from') else [['c18-upcast'], ['c08-resolve'], ['c16-builders']]
     if unit == 'U-REACH':
         return ['c08-reach']
     if unit == 'U-COMPACTAS' or unit in ('kani:uint_predicate_table', 'kani:compact_as_unnamed_upto3'):
